@@ -1,4 +1,4 @@
-CONSTANTS Window = 3 MaxStrobes = 4 MaxTicks = 9 Cap = 1 WithConsumer = TRUE WithTerminate = TRUE
+CONSTANTS Windows = {0, 1, 3} MaxStrobes = 4 MaxTicks = 9 Cap = 1 WithConsumer = TRUE WithTerminate = TRUE
 SPECIFICATION Spec
 INVARIANTS TypeOK InvC31_AtMostOne InvC31_NoLoss InvTimerPays InvDelivered InvC31_Coalesces
 PROPERTIES LiveTerminateReturns LiveStrobeReturns
